@@ -31,6 +31,7 @@ type Prog struct {
 	byObj   map[*types.Func]*ssa.Function
 	libPkg  map[*types.Package]bool
 	T       *Tables
+	Control bool // the embedded positive-control module
 }
 
 func loadEnv() []string {
@@ -73,7 +74,10 @@ func isLibPath(mod, path string) bool {
 }
 
 // Load type-checks ./... in dir and builds SSA.
-func Load(dir string) *Prog {
+func Load(dir string) *Prog { return LoadWith(dir, false) }
+
+// LoadWith: control = the embedded positive-control module (no instance floors).
+func LoadWith(dir string, control bool) *Prog {
 	fset := token.NewFileSet()
 	cfg := &packages.Config{
 		Mode:  packages.LoadAllSyntax | packages.NeedModule,
@@ -116,7 +120,8 @@ func Load(dir string) *Prog {
 		}
 	}
 	sort.Slice(p.Lib, func(i, j int) bool { return p.Lib[i].PkgPath < p.Lib[j].PkgPath })
-	if len(p.Lib) < minLibPackages {
+	p.Control = control
+	if !control && len(p.Lib) < minLibPackages {
 		infraFail("only %d library packages loaded, expected at least %d", len(p.Lib), minLibPackages)
 	}
 	prog, _ := ssautil.AllPackages(pkgs, ssa.BuilderMode(0))
